@@ -64,6 +64,12 @@ def run(R):
             if not seeds or 0 not in ta.closure(seeds):
                 ok = False
                 R.viol("C13.signing", "param-dropped:%s" % p, "parameter `%s` of bytes_for_signing does not flow into the returned bytes" % p, bsg, bsg.lines[0])
+            else:
+                from flow import whole_value_reaches
+                whole, part = whole_value_reaches(bsg, seeds)
+                if not whole:
+                    ok = False
+                    R.viol("C13.signing", "param-partial:%s" % p, "bytes_for_signing covers only part of `%s` (%s), not the whole value" % (p, ", ".join("." + x for x in sorted(part)) or "a projection"), bsg, bsg.lines[0])
         R.inst("C13.signing", "K6 flows-to", "all four parameters of bytes_for_signing reach the returned buffer", len(PARAMS), ok)
     h = R.body("C13.hash", PQ + "::hash")
     if h is not None:
